@@ -34,6 +34,20 @@ pub struct History {
     pub ref_time: u64,
     /// records in the order the reader's sorter emits them (nondecreasing time)
     pub recs: Vec<Rec>,
+    /// ELF files that exist on disk at the paths some MMAP2 records name (segment-based attribution)
+    pub files: Vec<ElfDecl>,
+}
+
+/// What the converter reads from an ELF file present on disk: the image base
+/// (`relative_address_base` = vaddr of the first LOAD segment) and the LOAD segments
+/// `(svma, file offset, file size)` in program-header order.
+#[derive(Clone, Debug, PartialEq, Default)]
+pub struct ElfDecl {
+    pub path: String,
+    pub base_svma: u64,
+    pub segs: Vec<(u64, u64, u64)>,
+    /// index of the executable segment (the one generated mappings refer to)
+    pub exec_seg: usize,
 }
 
 pub const CTX_KERNEL: u64 = (-128i64) as u64;
@@ -53,7 +67,12 @@ pub fn str_hex(h: &str) -> String {
 
 impl History {
     pub fn to_ops(&self) -> Vec<String> {
-        let mut v = vec![format!("cfg {} {} {}", self.reuse as u8, self.fold as u8, self.ref_time)];
+        let mut cfg = format!("cfg {} {} {}", self.reuse as u8, self.fold as u8, self.ref_time);
+        for f in &self.files {
+            let segs = f.segs.iter().map(|(a, b, c)| format!("{a},{b},{c}")).collect::<Vec<_>>().join(";");
+            let _ = write!(cfg, " elf:{}:{}:{}", hex_str(&f.path), f.base_svma, segs);
+        }
+        let mut v = vec![cfg];
         for r in &self.recs {
             v.push(match r {
                 Rec::Sample { pid, tid, t, kernel, period, ip, chain } => {
@@ -85,6 +104,19 @@ impl History {
                     h.reuse = n(1)? == 1;
                     h.fold = n(2)? == 1;
                     h.ref_time = n(3)?;
+                    for e in &w[4..] {
+                        let parts: Vec<&str> = e.split(':').collect();
+                        if parts.len() == 4 && parts[0] == "elf" {
+                            let segs = parts[3]
+                                .split(';')
+                                .filter_map(|s| {
+                                    let v: Vec<u64> = s.split(',').filter_map(|x| x.parse().ok()).collect();
+                                    (v.len() == 3).then(|| (v[0], v[1], v[2]))
+                                })
+                                .collect();
+                            h.files.push(ElfDecl { path: str_hex(parts[1]), base_svma: parts[2].parse().ok()?, segs, exec_seg: 0 });
+                        }
+                    }
                 }
                 Some("sample") => h.recs.push(Rec::Sample {
                     pid: n(1)? as u32,
@@ -642,6 +674,8 @@ pub struct Shape {
     pub allow_reuse: bool,
     /// allow `--fold-recursive-prefix`
     pub allow_fold: bool,
+    /// ELF files present on disk that MMAP2 records may name (empty = offset-based attribution only)
+    pub files: Vec<ElfDecl>,
 }
 
 struct Sim {
@@ -662,6 +696,7 @@ pub fn gen_history(rng: &mut Rng, shape: &Shape) -> History {
         fold: shape.allow_fold && rng.chance(1, 4),
         ref_time: 0,
         recs: Vec::new(),
+        files: shape.files.clone(),
     };
     let base_t = 1_000_000 * rng.range(1, 50);
     let mut sim = Sim { live: BTreeMap::new(), maps: BTreeMap::new(), t: base_t, next_new_pid: 300 };
@@ -921,11 +956,27 @@ pub fn gen_history(rng: &mut Rng, shape: &Shape) -> History {
                     continue;
                 }
                 let page = 0x1000u64;
-                let addr = 0x40_0000 + page * rng.below(64);
-                let len = page * rng.range(1, 8);
-                let pgoff = page * rng.below(5).min(addr / page);
-                let exec = rng.chance(5, 6);
-                let path = if rng.chance(1, 12) { String::new() } else { rng.pick(&PATHS).to_string() };
+                let mut addr = 0x40_0000 + page * rng.below(64);
+                let mut len = page * rng.range(1, 8);
+                let mut pgoff = page * rng.below(5).min(addr / page);
+                let mut exec = rng.chance(5, 6);
+                let mut path = if rng.chance(1, 12) { String::new() } else { rng.pick(&PATHS).to_string() };
+                if !shape.files.is_empty() && rng.chance(1, 2) {
+                    // a file present on disk: map its executable segment exactly / a superset / a page of it
+                    let f = &shape.files[rng.below(shape.files.len() as u64) as usize];
+                    let (_svma, off, size) = f.segs[f.exec_seg];
+                    let size_pages = size.div_ceil(page) * page;
+                    let (o, l) = match rng.below(3) {
+                        0 => (off, size_pages),
+                        1 => (off, size_pages + page),
+                        _ => (off + page * rng.below(size_pages / page), page),
+                    };
+                    pgoff = o;
+                    len = l;
+                    addr = 0x40_0000 + page * rng.below(64);
+                    exec = true;
+                    path = f.path.clone();
+                }
                 if path.is_empty() && exec {
                     continue;
                 }
